@@ -64,7 +64,8 @@ func addGuarded(s *Stack, src domains.BlockHeaderSource) (out string) {
 	return AddOutcome(s, src)
 }
 
-// C05 case: history line with x=<mode>:<i>:<k>   mode = kill | ckill | fault | cont
+// C05 case: history line with x=<mode>:<i>:<k>   mode = kill | ckill | sfault | fault | cont
+//   sfault: a SQLite trigger aborts statement kind k (0 demote / 1 promote / 2 insert) while header i is added
 //   kill/fault/cont count repository write calls; ckill counts committed SQLite transactions (commit hook)
 // obs: pre:<rows>|crash:<outcome>/<rows after restart>|redeliver:<o,o,..>/<rows>|clean:<rows>
 //   (cont: the fault at (i,k) is followed by ingestion of the remaining headers before the restart;
@@ -142,7 +143,23 @@ func runC05(c *Ctx) error {
 		}
 		var outs []string
 		var hit bool
-		if mode == "ckill" {
+		if mode == "sfault" {
+			// a SQLite trigger aborts one statement kind while this header is added (k: 0 demote, 1 promote, 2 insert)
+			ddl := map[int]string{
+				0: "CREATE TRIGGER verif_fault BEFORE UPDATE ON headers WHEN NEW.header_state = 'STALE' BEGIN SELECT RAISE(ABORT, 'verif: injected statement failure'); END",
+				1: "CREATE TRIGGER verif_fault BEFORE UPDATE ON headers WHEN NEW.header_state = 'LONGEST_CHAIN' BEGIN SELECT RAISE(ABORT, 'verif: injected statement failure'); END",
+				2: "CREATE TRIGGER verif_fault BEFORE INSERT ON headers BEGIN SELECT RAISE(ABORT, 'verif: injected statement failure'); END",
+			}[k]
+			if _, err := s.DB.Exec(ddl); err != nil {
+				return false, err
+			}
+			o := addGuarded(s, m.Src[i])
+			if _, err := s.DB.Exec("DROP TRIGGER verif_fault"); err != nil {
+				return false, err
+			}
+			hit = strings.HasPrefix(o, "E") || o == "P"
+			outs = []string{o}
+		} else if mode == "ckill" {
 			hookArmed, commitBudget, commitsSeen, hookHit = true, k, 0, false
 			o := addGuarded(s, m.Src[i])
 			hookArmed = false
@@ -264,7 +281,7 @@ func runC05(c *Ctx) error {
 			if _, err := doCase(h, p[0], i, k, "corpus"); err != nil {
 				return err
 			}
-		} else if err := all(h, "corpus", []string{"kill", "ckill", "fault", "cont"}, &big); err != nil {
+		} else if err := all(h, "corpus", []string{"kill", "ckill", "sfault", "fault", "cont"}, &big); err != nil {
 			return err
 		}
 	}
@@ -273,7 +290,7 @@ func runC05(c *Ctx) error {
 	var eerr error
 	ExhaustiveHistories(c.Pick(3, 4), []uint32{bitsW2, bitsW4}, func(h *History) {
 		if eerr == nil && budget > 0 {
-			eerr = all(h, "exhaustive", []string{"kill", "ckill"}, &budget)
+			eerr = all(h, "exhaustive", []string{"kill", "ckill", "sfault"}, &budget)
 		}
 	})
 	if eerr != nil {
@@ -283,7 +300,7 @@ func runC05(c *Ctx) error {
 	budget = c.Pick(1600, 30000)
 	for n := 0; budget > 0 && n < c.Pick(400, 8000); n++ {
 		o := GenOpts{N: 3 + c.Rng.Intn(c.Pick(8, 14)), PUnknown: 0.05, PLate: 0.08, PDup: 0.05, PForbidden: 0.05, Positive: true, Deep: true}
-		if err := all(GenHistory(c.Rng, o), "random-deep", []string{"kill", "ckill", "fault", "cont"}, &budget); err != nil {
+		if err := all(GenHistory(c.Rng, o), "random-deep", []string{"kill", "ckill", "sfault", "fault", "cont"}, &budget); err != nil {
 			return err
 		}
 	}
